@@ -19,7 +19,7 @@ MODES = ("unchecked", "skip", "wrap")
 FLOORS = {"quick": dict({f"cell:{m}:{'dmp' if d else 'difflib'}:{s}": 1500
                          for m in MODES for d in (True, False) for s in ("nosrc", "forced", "edited")},
                         **{"markup_docs": 300, "style_repair_moved": 100, "empty_spans": 1000,
-                           "overlapping_sets": 1000, "annotations_emitted": 20000, "style:link": 15000, "style:sentinel": 15000, "style:meta": 5000, "style_exhaustive_pairs": 10000}),
+                           "overlapping_sets": 1000, "annotations_emitted": 20000, "style:link": 15000, "style:sentinel": 15000, "style:meta": 5000, "style:same": 5000, "style_exhaustive_pairs": 10000}),
           "thorough": {"cases": 400000, "markup_docs": 20000, "style_repair_moved": 5000}}
 N = {"quick": 1400, "thorough": 60000}
 SHARDS = {"quick": 8, "thorough": 14}
@@ -110,13 +110,13 @@ def run_shard(spec, rec):
         if "«" in p or "«" in (src or ""):
             continue
         emitted = False
-        style = "link" if k % 3 == 1 else "meta" if k % 7 == 2 else "sentinel"
+        style = "link" if k % 3 == 1 else "meta" if k % 7 == 2 else "same" if k % 7 == 3 else "sentinel"
         for mode in MODES:
             for dmp in (True, False):
                 cell = f"cell:{mode}:{'dmp' if dmp else 'difflib'}:{kind}"
                 case = dict(plain=p, source=src, spans=sp, mode=mode, dmp=dmp, annotator=(k % 5 == 0), style=style)
                 anns = A.link_annotations(sp) if style == "link" else A.meta_annotations(sp, rng) if style == "meta" \
-                    else A.annotations(sp)
+                    else A.same_annotations(sp) if style == "same" else A.annotations(sp)
                 if style == "meta":
                     case = dict(case, anns=[(list(x[0]), x[1], x[2]) for x in anns])
                 out = one(rec, p, anns, src, mode, dmp, cell, case)
@@ -191,6 +191,9 @@ def replay(w, rec):
     sp = [tuple(x) for x in c["spans"]]
     if c.get("anns"):
         one(rec, c["plain"], [(tuple(x[0]), x[1], x[2]) for x in c["anns"]], c["source"], c["mode"], c["dmp"], "replay", c)
+        return
+    if c.get("style") == "same":
+        one(rec, c["plain"], A.same_annotations(sp), c["source"], c["mode"], c["dmp"], "replay", c)
         return
     if c.get("style") == "link":
         # the witness depends on an earlier call having used the shared closing string: make one
